@@ -40,6 +40,33 @@ type ReplayFile struct {
 	Trace       []string       `json:"trace,omitempty"`
 	Minimised   bool           `json:"minimised"`
 	OrigTapeLen int            `json:"orig_tape_len,omitempty"`
+	// Known is the set of open known findings ("class|sig") that was active when the
+	// run was recorded. Replay and minimisation restore it, because an engine may
+	// continue past such an observation (Run.FailSigContinue); without it the replay
+	// would stop at the earlier, known observation. Witnesses of known findings
+	// carry no Known and therefore stop at their finding.
+	Known []string `json:"known,omitempty"`
+}
+
+// softKnown is the known-finding set handed to every Run of this process.
+var softKnown map[string]bool
+
+func setSoftKnown(keys []string) {
+	softKnown = map[string]bool{}
+	for _, k := range keys {
+		if k != "" {
+			softKnown[k] = true
+		}
+	}
+}
+
+func softKnownList() []string {
+	out := make([]string, 0, len(softKnown))
+	for k := range softKnown {
+		out = append(out, k)
+	}
+	sort.Strings(out)
+	return out
 }
 
 // RunSummary is what a worker reports per interesting run.
@@ -201,6 +228,7 @@ func search(t *testing.T, e *Engine, prop, tier string, seed uint64, res *Worker
 		}
 	}
 	progress := os.Getenv("VERIF_PROGRESS")
+	setSoftKnown(strings.Split(os.Getenv("VERIF_KNOWN"), ";"))
 	res.Worker, res.Workers = worker, workers
 	start := time.Now()
 	nontriv := map[uint64]struct{}{}
@@ -249,6 +277,14 @@ func search(t *testing.T, e *Engine, prop, tier string, seed uint64, res *Worker
 				f.Close()
 			}
 		}
+		if r.SoftKnown > 0 && (r.Violation() == nil || !known[r.Violation().Class+"|"+r.Violation().Sig]) {
+			// the engine continued past a known observation (FailSigContinue)
+			res.KnownHits++
+			if res.KnownSample == nil {
+				res.KnownSample = &ReplayFile{Property: prop, Engine: e.Name, Seed: seed, Run: idx, Tier: tier,
+					Tape: append([]uint64(nil), tape.Recorded()...), Expect: r.softFirst, Config: r.Config, Trace: tailTrace(r.Trace(), 200)}
+			}
+		}
 		if v := r.Violation(); v != nil && known[v.Class+"|"+v.Sig] {
 			res.KnownHits++
 			if res.KnownSample == nil {
@@ -261,7 +297,7 @@ func search(t *testing.T, e *Engine, prop, tier string, seed uint64, res *Worker
 			res.Violations = append(res.Violations, ReplayFile{
 				Property: prop, Engine: e.Name, Seed: seed, Run: idx, Tier: tier,
 				Tape: append([]uint64(nil), tape.Recorded()...), Expect: v,
-				Config: r.Config, Trace: tailTrace(r.Trace(), 200),
+				Config: r.Config, Trace: tailTrace(r.Trace(), 200), Known: softKnownList(),
 			})
 			if len(res.Violations) >= maxViol {
 				break
@@ -333,6 +369,7 @@ func replay(t *testing.T, e *Engine, prop string, res *WorkerResult) {
 	if tier == "" {
 		tier = "quick"
 	}
+	setSoftKnown(rf.Known)
 	r := Execute(t, e, prop, tier, NewReplayTape(rf.Tape), rf.Seed, rf.Run)
 	res.Runs = 1
 	if r.InfraErr != "" {
